@@ -24,6 +24,9 @@ SHAPES = {
     "D3x": [("d1", "x"), ("d2", "x"), ("y",)],
     # a direct child named like the content root itself
     "D3n": [("top",), ("a",), ("d", "b")],
+    # a decomposed (NFD) name with a sibling that sorts between the
+    # decomposed and the composed spelling: 65 CC 81 < 68 < C3 A9
+    "D3d": [("e\u0301te\u0301.bin",), ("hiver.bin",), ("z", "e\u0301")],
     # payload files named like the output metafile ("o.torrent")
     "D3t": [("o.torrent",), ("d", "o.torrent"), ("e",)],
 }
